@@ -114,6 +114,16 @@ def o63(ctx):
     it = Interp(ctx.prog)
     r = it.run(q, [Rot(sym("R1")), Rot(sym("R2"))], {})
     got = to_term(r.ret)
+    # a batch of rotations (N of them) must give, pair by pair, the same closed form as a single pair
+    batch = Space("batch", how="root")
+    itb = Interp(ctx.prog)
+    rb = itb.run(q, [Rot(sym("R1"), space=batch), Rot(sym("R2"), space=batch)], {})
+    gotb = to_term(rb.ret)
+    vb = tm.equivalent(gotb, got, samplers=RS, n=30, tol=1e-6, seed_tag=q + "batch")
+    ctx.count(1, {"batch of rotations == single pair": bool(vb)})
+    if not vb:
+        ctx.finding(q, "batch input", "for a batch of rotations the cone distance of each pair must be the one computed for that pair alone "
+                    "(the z-axis image R e_z of every rotation in the batch)", fn, m, witness=vb.witness, extracted=tm.show(gotb)[:300])
     ez = T("vec", const(0.0), const(0.0), const(1.0))
     z1, z2 = T("rotapply", sym("R1"), ez), T("rotapply", sym("R2"), ez)
     want = T("degrees", T("arccos", T("clip", T("dot", z1, z2), const(-1.0), const(1.0))))
